@@ -45,12 +45,12 @@ def run(ctx):
     )
     run.trusted_base = ["CPython ast", "sa/forward.py provenance"]
     run.assumptions = ["Python comparison operators on the stored values behave as documented for the value kinds used"]
-    rule_operator_table(ctx)
-    rule_timestamp_coercion(ctx)
-    rule_conjunction(ctx)
-    rule_optimiser(ctx)
-    rule_all_answers_filtered(ctx)
-    rule_filters_only_grow(ctx)
+    ctx.do(rule_operator_table)
+    ctx.do(rule_timestamp_coercion)
+    ctx.do(rule_conjunction)
+    ctx.do(rule_optimiser)
+    ctx.do(rule_all_answers_filtered)
+    ctx.do(rule_filters_only_grow)
 
 
 def _op_chain(fi):
